@@ -589,6 +589,21 @@ fn base_lines(tier: Tier) -> Vec<String> {
         }
         v.push(l);
     }
+    // every subset continued by one more parameter, whichever: a new one (one more value to read) or
+    // one that is already there (a duplicate, wherever it stands: must be an error)
+    for mask in 0..4096u32 {
+        let mut l = String::from("go");
+        for (i, k) in GO_KEYS.iter().enumerate() {
+            if mask & (1 << i) != 0 {
+                l.push(' ');
+                l.push_str(k);
+                l.push_str(val(k));
+            }
+        }
+        for k in GO_KEYS.iter() {
+            v.push(format!("{} {}{}", l, k, val(k)));
+        }
+    }
     // all ordered pairs and triples (order independence)
     for a in 0..12 {
         for b in 0..12 {
